@@ -77,6 +77,25 @@ Theorem C08_typeswitch_seen_perm :
       forall cs, ts_cases ident perm1 cs = ts_cases ident perm2 cs.
 Proof. exact @ts_cases_perm. Qed.
 
+(* the duplicate detection of the type switch is COMPLETE when `ident` is an equivalence (types.Identical):
+   a case whose type is identical to an earlier case's type is always reported, whatever the iteration
+   order of `seen` (this is the diagnostic whose loss makes cl accept programs Go rejects: C06) *)
+Theorem C08_typeswitch_duplicate_reported :
+  forall (T P : Type) (ident : T -> T -> bool),
+    (forall a, ident a a = true) ->
+    (forall a b c, ident a b = true -> ident b c = true -> ident a c = true) ->
+    forall perm : list (T * P) -> list (T * P), (forall l, Permutation l (perm l)) ->
+      forall pre c mid d post, ident (fst d) (fst c) = true ->
+        snd (ts_cases ident perm (pre ++ c :: mid ++ d :: post)) <> [].
+Proof. intros. eapply ts_cases_complete; eauto. Qed.
+
+(* ... and it is lost when identity of allocation is used instead (a map lookup seen[T]): two
+   occurrences of an unnamed type such as []int are two allocations of one structure *)
+Theorem C08_typeswitch_pointer_identity_misses :
+  exists cs : list ((nat * nat) * nat),
+    snd (ts_cases ident_struct (fun l => l) cs) <> [] /\ snd (ts_cases ident_ptr (fun l => l) cs) = [].
+Proof. exact pointer_identity_misses_duplicate. Qed.
+
 (* a logging loop is order independent when at most one iteration logs *)
 Theorem C08_log_loop_perm_at_most_one :
   forall (X E : Type) (body : X -> list E) (l l' : list X),
@@ -165,6 +184,8 @@ Print Assumptions C08_gopsyms_set_build_perm.
 Print Assumptions C08_find_unique_perm.
 Print Assumptions C08_errs_per_match_perm.
 Print Assumptions C08_typeswitch_seen_perm.
+Print Assumptions C08_typeswitch_duplicate_reported.
+Print Assumptions C08_typeswitch_pointer_identity_misses.
 Print Assumptions C08_log_loop_perm_at_most_one.
 Print Assumptions C08_initgoppkg_log_order_refuted.
 Print Assumptions C08_loadpackage_pick_any_refuted.
